@@ -45,9 +45,11 @@ INSPECT_KIND = {
 CONTEXTS = ["module", "async", "method", "staticmethod", "classmethod", "nested", "inner-function-of-init",
             # the module postpones the evaluation of annotations: a string literal inside an annotation is a value, not a forward reference (CPython reports "'T'")
             "future", "future-method"]
-ANN = ["none", "all", "alternating", "string", "literal"]  # literal: Literal["r", "w"] and a nested one: the strings are values, not forward references
-DEFAULTS = ["0", "None", "x", "(1, 2)", "lambda q=1, /, *r: q", '"utf-8"', '"int"', 'lambda m="r", *, e="a-b": m']  # (string defaults are values, never annotations)
-RETURNS = [None, "int", '"R"', "list[int]", 'Literal["ok", "ko"]']
+ANN = ["none", "all", "alternating", "string", "literal", "chain3"]  # literal: Literal["r", "w"] and a nested one: the strings are values, not forward references
+DEFAULTS = ["0", "None", "x", "(1, 2)", "lambda q=1, /, *r: q", '"utf-8"', '"int"', 'lambda m="r", *, e="a-b": m',
+            # a lambda whose own parameters default to EMPTY displays (falsy values are defaults all the same); three operands of one operator
+            "lambda item, seen=[], memo={}, t=(), s='': item", "'usr' + '/' + 'lib'", "1 - 2 - 3"]  # (string defaults are values, never annotations)
+RETURNS = [None, "int", '"R"', "list[int]", 'Literal["ok", "ko"]', "bytes | str | None"]
 _MAXC = {"quick": 2, "thorough": 3}
 
 
@@ -87,6 +89,9 @@ def build_params(shape, ann="none", default="0", first=None):
             p[2] = "int"
         elif ann == "string":
             p[2] = '"T"'
+        elif ann == "chain3":
+            # three operands of one operator, three names in a dotted chain: the order of the operands / names is part of the expression
+            p[2] = "int | str | None" if i % 2 == 0 else "typing.Optional[T | R | int | None]"
         elif ann == "literal":
             p[2] = 'Literal["r", "w"]' if i % 2 == 0 else 'dict[str, typing.Literal["on", "off"]]'
     return out
